@@ -11,7 +11,8 @@
     `C07_{dump,infohash}_error_from_validate`, `C07_magnet_error_from_infohash`
 
   Metainfo = the item list of `Torrent._metainfo` (a Python dict: `Codec.wf`, pairwise distinct
-  keys, is its representation invariant).  Cyclic containers (finding D07g) are outside `PyVal`.
+  keys, is its representation invariant).  Cyclic containers are outside `PyVal`
+  (their exports raise MetainfoError since /repo 19d011f; checked on the implementation).
 -/
 import Torf.Lemmas.ExportSound
 namespace Torf.C07
